@@ -8,13 +8,14 @@
    epoch agrees with the model's `fit`) and `LOG …` (events of that fit call, oldest first); `---` per block. -/
 import NdeVerif.Model.Solver
 import NdeVerif.Model.Solution
-open NdeVerif.Solver NdeVerif.Solution
+import NdeVerif.Model.Persist
+open NdeVerif.Solver NdeVerif.Solution NdeVerif.Persist
 
 def lossFormula (lossId : Nat) (θ : Int) (train : Bool) (idx : Nat) : Int :=
-  ((θ * 7 + (idx : Int) * 13 + (lossId : Int) * 31 + (if train then 5 else 0)) % 11) * 6
+  ((θ * 7 + (idx : Int) * 13 + (lossId : Int) * 31 + (if train then 5 else 0)) % 11) * 12
 
 def metricFormula (m : Nat) (θ : Int) (train : Bool) (idx : Nat) : Int :=
-  ((θ * 3 + (idx : Int) * 5 + (m : Int) * 17 + (if train then 1 else 0)) % 7) * 6
+  ((θ * 3 + (idx : Int) * 5 + (m : Int) * 17 + (if train then 1 else 0)) % 7) * 12
 
 def plainFormula (k : Nat) : Int := ((k : Int) * 5) % 7 - 3
 
@@ -95,6 +96,12 @@ def runOp (d : DState) (line : String) : DState :=
     let agree := dump s1 == dump s2 && s1.log == s2.log
     let log := " ".intercalate (s1.log.reverse.filterMap showEvent)
     { d with s := s1, call := d.call + 1, out := ("LOG " ++ log) :: (s!"F agree={agree} " ++ dump s1) :: out }
+  | ["save", ok, k] =>
+    let r := save (ok == "1") k.toNat! d.s
+    { d with s := r.1, out := s!"SAVE wrote={r.2.isSome} {dump r.1}" :: d.out }
+  | ["saveload", k] =>
+    let l := load (file (save true k.toNat! d.s).1) 1 4 d.nMetrics
+    { d with s := l, call := 0, sched := [], out := ("SL " ++ dump l) :: d.out }
   | ["getsol", cp, b] =>
     let r := getSolution (cp == "1") (b == "1") d.s
     { d with sols := d.sols ++ [r], out := (match r with | none => "SOL error" | some .live => "SOL live" | some (.frozen _) => "SOL frozen") :: d.out }
